@@ -18,6 +18,8 @@ pub mod utils;
 mod confidence;
 mod interval;
 mod stats;
+#[cfg(stats_ci_verif)]
+mod verif_trace;
 
 pub use confidence::Confidence;
 pub use error::CIResult;
